@@ -2,6 +2,7 @@ import BppModel.Proto
 import BppModel.Graph
 import BppModel.Observer
 import BppModel.ObserverExt
+import BppModel.GraphIter
 /-
 Driver for C14 (GlobalGraph + association observer).
 
@@ -179,7 +180,8 @@ def qn (v : View) (n : Nat) : String :=
   let r := v.rowOf n
   let d := v.directed
   let l (o : Option (List Nat)) := showOpt (o.map showNats)
-  let it (f : Row → List Nat) := showQ (RowQ.iter f r)
+  -- the iterators: the client loop over the modelled iterator object (`Cursor.drain`); `ub` = `RowQ.iter`'s
+  let it (f : Row → List Nat) := showQ (match RowQ.iter f r with | .ok l => .ok (Cursor.mk0 l).drain | x => x)
   let its := match r with
     | none => "ub"
     | some _ =>
@@ -203,7 +205,8 @@ def qp (v : View) (a b : Nat) : String :=
 
 def qg (v : View) : String :=
   s!"nodes {showNats v.nodes} edges {showNats v.edges} leaves {showNats v.leaves} lset {showNats v.leaves} inner {showNats v.inner} " ++
-  s!"cnt {v.nodes.length} {v.edges.length} itn {showNats v.nodes} / {showNats v.nodes} ite {showNats v.edges} / {showNats v.edges} " ++
+  s!"cnt {v.nodes.length} {v.edges.length} itn {showNats (Cursor.mk0 v.nodes).drain} / {showNats (Cursor.mk0 v.nodes).drain} " ++
+  s!"ite {showNats (Cursor.mk0 v.edges).drain} / {showNats (Cursor.mk0 v.edges).drain} " ++
   s!"dir {showBool v.directed} rec {showOpt (v.recip.map showBool)} root {v.root}"
 
 def leavesFrom (v : View) (n d : Nat) : String :=
@@ -239,8 +242,9 @@ def oqn (ov : OView) (a : Obj) : String :=
       match r with
       | none => "ub"
       | some row =>
-        let four := s!"{showObjs (o.nodesFromGids (AL.keys row.out))} / {showObjs (o.nodesFromGids (AL.keys row.inn))} / " ++
-                    s!"{showObjs (o.edgesFromGids (AL.vals row.out))} / {showObjs (o.edgesFromGids (AL.vals row.inn))}"
+        let oit (l : List Nat) (f : Nat → Option Obj) : String := showObjs (OCursor.mk (Cursor.mk0 l) f).drain
+        let four := s!"{oit (AL.keys row.out) o.nodeFromGid} / {oit (AL.keys row.inn) o.nodeFromGid} / " ++
+                    s!"{oit (AL.vals row.out) o.edgeFromGid} / {oit (AL.vals row.inn) o.edgeFromGid}"
         four ++ " / " ++ four
   s!"has {showBool (o.hasNode a)} gid {showOpt (gid.map toString)} idx {showBool (AL.has a o.Ni)} {showOpt ((AL.find a o.Ni).map toString)} " ++
   s!"on {nl (RowQ.outNeighbors r)} in {nl (RowQ.inNeighbors r)} nb {nl (RowQ.neighbors d r)} " ++
@@ -277,8 +281,8 @@ def oqg (ov : OView) : String :=
   let nl : Option Nat := (nodes.mapM (fun a => match AL.find a o.Ng with
       | some id => RowQ.isLeaf v.directed (v.rowOf id)
       | none => none)).map (fun (l : List Bool) => (l.filter id).length)
-  let itn := showObjs (o.nodesFromGids v.nodes)
-  let ite := showObjs (o.edgesFromGids v.edges)
+  let itn := showObjs (OCursor.mk (Cursor.mk0 v.nodes) o.nodeFromGid).drain
+  let ite := showObjs (OCursor.mk (Cursor.mk0 v.edges) o.edgeFromGid).drain
   s!"nodes {showObjs nodes} edges {showObjs edges} leaves {showObjs leaves} inner {showObjs inner} " ++
   s!"cnt {o.Ng.length} {o.Eg.length} {showOpt (nl.map toString)} itn {itn} / {itn} ite {ite} / {ite} " ++
   s!"nidx {showOpt ((idxs o.Ni nodes).map showNats)} eidx {showOpt ((idxs o.Ei edges).map showNats)} " ++
@@ -548,10 +552,10 @@ def step (st : St) (op : List String) (impl : Option (List String)) : St × Stri
     omut st impl (.ok "ok reg 0" w') { res := "", spec := { h with pending := [] }.abs }
   | ["notifyE", a, b] =>
     -- `notifyDeletedEdges` is a public member: every observer forgets the objects of the named edges
-    let w' := ({ w with g := { w.g with pending := [.edges [nat a, nat b]] } } : World).deliver
+    let w' := w.stepX (.notify (.edges [nat a, nat b]))
     omut st impl (.ok "ok" w') keep
   | ["notifyN", a, b] =>
-    let w' := ({ w with g := { w.g with pending := [.nodes [nat a, nat b]] } } : World).deliver
+    let w' := w.stepX (.notify (.nodes [nat a, nat b]))
     omut st impl (.ok "ok" w') keep
   | ["qn", n] => query st impl (fun v => qn v (nat n))
   | ["qe", e] => query st impl (fun v => qe v (nat e))
